@@ -478,30 +478,46 @@ class Runner:
             data = fh.read()
         return data
 
+    def _read_dir(self, slot, index):
+        """the directory a problem is read from.  A `slot` names a path that is REUSED by later reads of the same slot
+        (the path string is part of the history); without one the read gets a path of its own.  The directory holds
+        exactly the files of this read: what an earlier read of the slot wrote there is removed."""
+        d = os.path.join(self.tmp, f"slot{slot if slot is not None else 1000 + index}")
+        if os.path.isdir(d):
+            shutil.rmtree(d)
+        os.makedirs(d)
+        return d
+
+    def _loaded(self, pid, path):
+        p = montepy.read_input(path)
+        self.problems[pid] = p
+        # the full problem: how many cells, surfaces and data inputs it got (the bytes follow with `write`)
+        return {"t": "ok", "n": [len(p.cells), len(p.surfaces), len(p.data_inputs)], "nums": [c.number for c in p.cells][:40]}
+
     # -- operations
-    def do(self, op):
+    def do(self, op, index=0):
         name = op[0]
-        if name == "read":  # modelled file system
-            _, pid, files, top = op
-            path = render_files(files, top, self._dir())
-            self.problems[pid] = montepy.read_input(path)
-            return {"t": "ok"}
-        if name == "readtext":  # a problem given as text (plus side files): [readtext, pid, {name: text}, top]
-            _, pid, texts, top = op
-            d = self._dir()
+        if name == "read":  # modelled file system: [read, pid, files, top, slot?]
+            pid, files, top = op[1:4]
+            slot = op[4] if len(op) > 4 else None
+            path = render_files(files, top, self._read_dir(slot, index))
+            return self._loaded(pid, path)
+        if name == "readtext":  # a problem given as text (plus side files): [readtext, pid, {name: text}, top, slot?]
+            pid, texts, top = op[1:4]
+            slot = op[4] if len(op) > 4 else None
+            d = self._read_dir(slot, index)
+            main = "f0.txt" if slot is not None else top  # within a slot every problem file has the same path string
             for fname, text in texts.items():
-                with open(os.path.join(d, fname), "w") as fh:
+                with open(os.path.join(d, main if fname == top else fname), "w") as fh:
                     fh.write(text)
-            self.problems[pid] = montepy.read_input(os.path.join(d, top))
-            return {"t": "ok"}
-        if name == "readrich":  # [readrich, pid, {"end": k, "fail": k, "first": k}]
+            return self._loaded(pid, os.path.join(d, main))
+        if name == "readrich":  # [readrich, pid, {"end": k, "fail": k, "first": k, "slot": n}]
             _, pid, opts = op
-            d = self._dir()
-            path = os.path.join(d, "rich.i")
+            d = self._read_dir(opts.get("slot"), index)
+            path = os.path.join(d, "f0.txt" if opts.get("slot") is not None else "rich.i")
             with open(path, "w") as fh:
                 fh.write(rich_problem(opts.get("end"), opts.get("fail"), opts.get("first")))
-            self.problems[pid] = montepy.read_input(path)
-            return {"t": "ok"}
+            return self._loaded(pid, path)
         if name == "make":  # [make, kind, text]: build one object straight from an Input
             obj = make_object(op[1], op[2])
             desc = describe_object(obj)
@@ -669,10 +685,25 @@ def world_state():
     from montepy.input_parser import input_syntax_reader
     from montepy.input_parser.parser_base import MCNP_Parser
 
-    q = []
-    for entry in list(input_syntax_reader.reading_queue):
-        fname = entry[1]
-        q.append(int(fname[1:-4]) if fname.startswith("f") and fname.endswith(".txt") and fname[1:-4].isdigit() else fname)
+    def ids(entries):
+        out = []
+        for entry in list(entries):
+            fname = entry[1]
+            out.append(int(fname[1:-4]) if fname.startswith("f") and fname.endswith(".txt") and fname[1:-4].isdigit() else fname)
+        return out
+
+    rq = input_syntax_reader.reading_queue
+    if isinstance(rq, dict):  # one queue per key: name the key by the slot of the path it mentions
+        import re
+
+        q = []
+        for key, entries in rq.items():
+            m = re.search(r"slot(\d+)", str(key))
+            if ids(entries):
+                q.append([int(m.group(1)) if m else str(key)[-30:], ids(entries)])
+        q.sort(key=str)
+    else:  # one queue for the process: key 0
+        q = [[0, ids(rq)]] if ids(rq) else []
     latched = sorted(name for name, cell, declared in _SETTERS if cell.cell_contents is not declared)
     return {"queue": q, "log": len(MCNP_Parser.log) > 0, "latched": latched, "class_state": class_state_changes()}
 
@@ -687,7 +718,7 @@ def execute(run, tmp=None):
         r = Runner(tmp, keep_text=bool(run.get("text")), count_parses=bool(run.get("count_parses")))
         for op in run["ops"]:
             try:
-                o = r.do(op)
+                o = r.do(op, len(obs))
             except _NoProblem:
                 o = {"t": "err", "v": "NoProblem"}
             except Exception as e:  # noqa: BLE001
